@@ -175,7 +175,7 @@ static void run_case(vh_ctx *c)
       vh_max("max_fullrank_varexp_sum_dev", (double)fabsl(sumve - 100));
       if (fabsl(sumve - 100) > tolv + 1e-6) vh_fail(c, "PCA|varexp-sum-fullrank", "npc=rank=%zu but sum varexp = %.12Lg", rank, sumve);
       /* back-transform reproduces the original */
-      initMatrix(&back);
+      back = drv_out_matrix(c, n, p, 1);
       PCAIndVarPredictor(m->scores, m->loadings, m->colaverage, m->colscaling, npc, back);
       {
         double xs = matrix_maxabs(mx) + 1e-300, d = matrix_maxdiff(back, mx);
@@ -186,7 +186,7 @@ static void run_case(vh_ctx *c)
     }
   }
   /* re-projection of the training matrix */
-  initMatrix(&ps);
+  ps = drv_out_matrix(c, n, npc, 2);
   PCAScorePredictor(mx, m, npc, ps);
   {
     double d = matrix_maxdiff(ps, m->scores);
@@ -195,7 +195,7 @@ static void run_case(vh_ctx *c)
   }
   DelMatrix(&ps);
   /* residual matrix accessor */
-  initMatrix(&res);
+  res = drv_out_matrix(c, n, p, 3);
   GetResidualMatrix(mx, m, npc, res);
   if (res->row != n || res->col != p) vh_fail(c, "GetResidualMatrix|shape", "%zux%zu", res->row, res->col);
   else {
